@@ -509,7 +509,7 @@ fn cmd_check(args: &Args) -> i32 {
             Err(e) => J::obj().with("applicable", J::Bool(true)).with("error", J::Str(e)),
         },
         None if args.get("conc-skipped").is_some() => J::obj().with("applicable", J::Bool(true)).with("ran", J::Bool(false)).with("reason", J::Str(format!("the tree mentions atomics, but the concurrent phase could not be run on it: {}", args.get("conc-skipped").unwrap_or("")))),
-        None => J::obj().with("applicable", J::Bool(false)).with("reason", J::str("the non-test source of the tree contains no `sync::atomic`: there is no shared state whose accesses a thread scheduler could interleave (DESIGN 1); on a tree that has some, check.sh rebuilds the crate with core::sync::atomic replaced by shuttle::sync::atomic and explores interleavings of two or three simulated callers (DESIGN 10.13)")),
+        None => J::obj().with("applicable", J::Bool(false)).with("reason", J::str("the source of the tree does not mention atomics anywhere: there is no shared state whose accesses a thread scheduler could interleave (DESIGN 1); on a tree that has some, check.sh rebuilds the crate with core::sync::atomic replaced by shuttle::sync::atomic and explores interleavings of two or three simulated callers (DESIGN 10.13)")),
     };
 
     if !harness_errors.is_empty() {
